@@ -7,8 +7,8 @@ CIDR whose interface is known and up, with the interface index. -/
 def RT.cands (t : RT) (cidr : String) : List (Want × Nat) :=
   t.wants.filterMap (fun w =>
     if w.cidr == cidr then
-      match t.ifaces.get w.iface with
-      | some i => if i.up then some (w, i.idx) else none
+      match t.n2i.get w.iface with
+      | some idx => if t.i2s.get idx == some true then some (w, idx) else none
       | none => none
     else none)
 
@@ -46,13 +46,14 @@ theorem best_isSome (t : RT) (cidr : String) (x : Want × Nat) (hx : x ∈ t.can
 
 /-! ### Frames of the two passes -/
 
-/-- The inputs of conflict resolution and ownership (nothing in `Apply`'s passes changes them). -/
+/-- What the desired routes and ownership are read from (nothing in `Apply`'s passes changes them): the cache of
+desired routes, the index-to-name map, the targets and the ownership policy. -/
 def SameWants (a b : RT) : Prop :=
-  a.wants = b.wants ∧ a.ifaces = b.ifaces ∧ a.defProto = b.defProto ∧ a.pol = b.pol
+  a.des = b.des ∧ a.i2n = b.i2n ∧ a.wants = b.wants ∧ a.pol = b.pol
 
 theorem desired_congr {a b : RT} (h : SameWants a b) (c : String) : a.desired c = b.desired c := by
-  unfold RT.desired RT.best
-  rw [h.1, h.2.1, h.2.2.1]
+  unfold RT.desired
+  rw [h.1]
 
 theorem owns_congr {a b : RT} (h : SameWants a b) (r : KRoute) : a.owns r = b.owns r := by
   unfold RT.owns RT.ifaceName
